@@ -278,18 +278,15 @@ def _validate_fp64(PC, fn, seed, errors):
     return n_ok
 
 
-def run_fp(tier, seed, group):
+def _run_fp_one(tier, seed, group, sb, timeout_ms):
     PC, fn = _fn()
     quick = tier == "quick"
-    run = _Run(560000 if quick else 2400000)
+    run = _Run(timeout_ms)
     try:
-        nval = _validate_fp64(PC, fn, seed, run.errors)
+        nval = 0
         if group == "a":
             sort = z3.Float64()
         else:
-            # mantissa widths at which the bit-blasted queries were measured to terminate (36 s / 98 s);
-            # wider formats hit the timeout (then the result is BOUNDED, never success)
-            sb = dict(b=(11, 12), c=(9, 11))[group][0 if quick else 1]
             sort = z3.FPSort(8, sb)
         k = pyk.translate(fn, pyk.FPMode(sort), FIELDS, ARGS)
     except pyk.Unsupported as e:
@@ -348,6 +345,12 @@ def run_fp(tier, seed, group):
                   replayer(lambda a, b, q, o: a > b or Fraction(o) <= Fraction(b) + Fraction(q) + T64))
     else:
         return dict(status="ERROR", message="unknown group")
+    # translator validation (after the queries: z3 5.1 answered `unknown (invalid extract application)` on the
+    # small-format query when binary64 terms had been built in the same context before)
+    try:
+        nval = _validate_fp64(PC, fn, seed, run.errors)
+    except pyk.Unsupported as e:
+        run.errors.append("translator validation: %s" % e)
     fmt = "binary64" if group == "a" else "FPSort(8,%d) scaled model of binary64" % sort.sbits()
     return run.result(TRUSTED, [
         "IEEE obligations in %s, RNE; t, n in [1e9, 2e9] (epoch scale), %g <= p <= 1e9, tolerance %g"
@@ -358,3 +361,23 @@ def run_fp(tier, seed, group):
             "tol/ulp(t) ratios as binary64 (binary32/64 queries did not terminate within 300 s); the binary64 "
             "claim for these two clauses rests on that model plus the exact-real proofs R3/R4"]),
         extra=dict(source_sha=k.source_sha, validated_inputs=nval, fp_format=fmt))
+
+
+def run_fp(tier, seed, group):
+    """group a: binary64.  groups b/c: reduced-precision formats - candidate mantissa widths are tried in turn
+    (z3 5.1 is erratic on these bit-blasted queries: 36-100 s at some widths, timeout or an immediate
+    `unknown (invalid extract application)` at others); the first width at which every obligation of the group
+    is `unsat` is reported, otherwise the last inconclusive result (BOUNDED - never success)."""
+    quick = tier == "quick"
+    if group == "a":
+        return _run_fp_one(tier, seed, group, 53, 560000 if quick else 2400000)
+    cands = dict(b=[11, 9], c=[9, 11, 10, 8])[group] if quick else dict(b=[12, 11], c=[12, 11, 9, 10])[group]
+    tried = []
+    r = None
+    for sb in cands:
+        r = _run_fp_one(tier, seed, group, sb, 200000 if quick else 1200000)
+        tried.append("FPSort(8,%d): %s" % (sb, r.get("status")))
+        if r.get("status") in ("PROVED", "VIOLATION", "ERROR"):
+            break
+    r["assumptions"] = list(r.get("assumptions", [])) + ["formats tried: " + ", ".join(tried)]
+    return r
